@@ -143,7 +143,13 @@ def check_transfer(c):
     vols, m = c["vols"], c["max"]
     n = len(vols)
     src, dst = mk_labware(c, n)
-    wl = DEVICES[c["device"]](max_volume=m, auto_split=True, diti_mode=c.get("diti", False))
+    if c.get("reassign"):
+        # the limits are public attributes: a worklist whose max_volume / auto_split were set after construction (tip size
+        # changed mid-worklist) must split by the limits that are in force when the transfer is made
+        wl = DEVICES[c["device"]](max_volume=c["reassign"], auto_split=False, diti_mode=c.get("diti", False))
+        wl.max_volume, wl.auto_split = m, True
+    else:
+        wl = DEVICES[c["device"]](max_volume=m, auto_split=True, diti_mode=c.get("diti", False))
     wells = [f"{'ABCDEFGH'[i]}01" for i in range(n)]
     v_arg = vols[0] if n == 1 and c.get("scalar") else vols
     try:
@@ -198,7 +204,11 @@ def check_nosplit(c):
     big = BIG
     src = Labware("S", 2, 2, min_volume=0, max_volume=big, initial_volumes=float(v) * 2 + 10)
     dst = Labware("D", 2, 2, min_volume=0, max_volume=big)
-    wl = DEVICES[c["device"]](max_volume=m, auto_split=c.get("auto_split", False))
+    if c.get("reassign"):
+        wl = DEVICES[c["device"]](max_volume=c["reassign"], auto_split=not c.get("auto_split", False))
+        wl.max_volume, wl.auto_split = m, c.get("auto_split", False)
+    else:
+        wl = DEVICES[c["device"]](max_volume=m, auto_split=c.get("auto_split", False))
     exc = None
     try:
         if op == "transfer":
@@ -328,6 +338,11 @@ def gen_enumerated(tier):
                         if op not in ("transfer", "transfer_vec"):
                             yield {"kind": "nosplit", "device": dev, "v": v, "max": m, "op": op, "auto_split": True}
             yield {"kind": "transfer", "device": dev, "vols": [0, safe(2 * m + 0.5, m), 0.0], "max": m}
+            if is_dyadic(m):
+                for other in (m * 4, m / 2):  # limits reassigned after construction (smaller and larger tips)
+                    yield {"kind": "transfer", "device": dev, "vols": [m, safe(3 * m, m), m / 2], "max": m, "reassign": other}
+                    yield {"kind": "nosplit", "device": dev, "v": 2 * m, "max": m, "op": "transfer", "reassign": other}
+                    yield {"kind": "nosplit", "device": dev, "v": m, "max": m, "op": "transfer", "reassign": other}
             yield {"kind": "transfer", "device": dev, "vols": [m, safe(3 * m, m), safe(math.nextafter(2 * m, math.inf), m)], "max": m,
                    "trough": True, "wash": "reuse"}
         # reagent distribution grid
